@@ -421,6 +421,13 @@ H("c05_ooo_skip_any_replay", "c05_ooo.rs", ["C05", "C04"], "quick", unwind=6, me
   bounds="<= 2 parked keys; requests beyond the current generation after parking are outside (window interior: unwinding bound)",
   assumes=["gap <= 2", "q <= generation of the message that overtook"])
 
+H("c05_ooo_two_jumps_then_any", "c05_ooo.rs", ["C05", "C04"], "thorough", unwind=6, mem="X", stubs=ZSTUBS + _CUT + _BT + ["model: fresh-output CipherSuiteProvider (no log)"],
+  timeout_s=3600,
+  what="shipped out_of_order ratchet, two forward jumps: messages gen+1 and gen+3 overtake gen and gen+2; the parked keys are exactly {gen, gen+2}; "
+       "ANY request q <= gen+3 succeeds iff q is one of them, once (replay refused, the other parked key still served once, history empty at the "
+       "end); refused requests change nothing",
+  symbolic="ratchet generation any u32 <= 2^32-2001, requested generation q any u32 <= gen+3, ratchet secret bytes", bounds="2 parked keys, 5 requests",
+  assumes=["q <= gen + 3"])
 for kt in ["application", "handshake"]:
     H("c05_dispatch_%s" % kt, "c05_ooo.rs", ["C05", "C13"], "quick", unwind=5, mem="M", stubs=ZSTUBS + _CUT + _BT + ["model: fresh-output CipherSuiteProvider (no log)"],
       timeout_s=1200,
